@@ -672,6 +672,11 @@ class _CB(flow.DefaultCB):
                 it.err(self.f, node, f'matrix product of non-matrices {a} @ {b}')
                 return Top('matmul')
             return Top('matmul of non-tensors')
+        if isinstance(op, ast.Mult) and ((isinstance(a, ListV) and isinstance(b, SV)) or (isinstance(b, ListV) and isinstance(a, SV))):
+            # sequence repetition with a literal count: (x, y) * 2
+            lst, cnt = (a, b) if isinstance(a, ListV) else (b, a)
+            if not lst.star and cnt.text.isdigit() and 0 < int(cnt.text) <= 4:
+                return ListV(lst.items * int(cnt.text))
         if isinstance(op, ast.Add) and isinstance(a, ShapeV) and isinstance(b, (ListV, ShapeV)):
             extra = b.axes if isinstance(b, ShapeV) else tuple(_axis_of(x) for x in b.items)
             return ShapeV(a.axes + extra)
